@@ -237,3 +237,52 @@ func verifFieldDiff(a, b string) string {
 	}
 	return out
 }
+
+// A party that exists only in a LATER generation: an internal extension that registers from
+// inside the runtime and asks for its first event BEFORE the runtime's first next. On a freshly
+// started instance this initialisation completes (reference); after a generation without any
+// extension and a reset it must complete just the same (barrier counts of the old generation
+// must not survive the reset).
+func verifC08InternalFirst(afterReset bool) {
+	f := newVerifFull(0, nil, nil, 3000)
+	w := f.w
+	internalGen := 0
+	if afterReset {
+		internalGen = 1
+	}
+	w.SetRuntimeScript(func(k int, api *rapid.VerifRuntimeAPI) bool {
+		if k != internalGen {
+			return false // plain healthy runtime
+		}
+		ia := api.InternalExtAPI("internal0")
+		asked := false
+		verifSpawnEnv(func() {
+			st, id, _ := ia.Register("internal0", []string{"INVOKE"})
+			verifAssert(st == 200, "the internal extension of the new generation registers")
+			asked = true
+			for i := 0; st == 200 && i < 4 && !api.Dead(); i++ {
+				if s2, _ := ia.Next(id); s2 != 200 {
+					verifAssert(api.Dead(), "the internal extension's next is answered with an event")
+					return
+				}
+			}
+		})
+		// the runtime asks for its first invocation only when the extension has already asked
+		verifWaitUntil(func() bool { return (asked && w.Count("internal:internal0", "next-issued", "") > 0) || api.Dead() })
+		verifReach("internal-first")
+		return false
+	})
+	if afterReset {
+		o := f.invoke()
+		verifAssert(o.err == nil, "first generation (no extension): healthy invocation")
+		f.s.Reset("ReleaseFail", 2000)
+		verifSettle()
+	}
+	o := f.invoke()
+	verifAssert(o.err == nil, "an initialisation in which an internal extension asks for its first event before the runtime completes, and the invocation is served")
+	rs := w.RuntimeResponses()
+	verifAssert(o.wr.writes == 1 && len(rs) > 0 && string(o.wr.body) == rs[len(rs)-1], "the invocation returns its own response")
+	verifReach("done")
+}
+func VerifC08InternalFirstFresh()      { verifC08InternalFirst(false) }
+func VerifC08InternalFirstAfterReset() { verifC08InternalFirst(true) }
